@@ -436,6 +436,16 @@ Qed.
 (* ------------------------------------------------------------------------------------------ *)
 (* the clauses about WHEN a node may be added / a removal may be marked                          *)
 (* ------------------------------------------------------------------------------------------ *)
+(* all_ready means: every current (non-removing) replica answered the member query with the full ready
+   set and answered "synced" *)
+Lemma all_ready_synced : forall env i n, all_ready env i = true -> In n (isr i) -> synced_of env n = true.
+Proof.
+  intros env i n H Hn. unfold all_ready in H. rewrite forallb_forall in H. specialize (H n Hn).
+  unfold node_full_ready in H. destruct (raft_nodes i); [discriminate|].
+  rewrite forallb_forall in H. specialize (H n Hn).
+  destruct (members_of env n); [|discriminate]. apply andb_true_iff in H. tauto.
+Qed.
+
 Definition new_node (a : attempt) : Prop :=
   exists x, In x (raft_nodes (a_value a)) /\ ~ In x (raft_nodes (a_before a)).
 Definition new_mark (a : attempt) : Prop :=
@@ -444,8 +454,11 @@ Definition new_mark (a : attempt) : Prop :=
 Definition att_sync (env : answers) (a : attempt) : Prop :=
   new_node a -> all_ready env (a_before a) = true /\ removings (a_before a) = [].
 (* a removal is marked only when more than replica/2 of the replicas are on registered (alive) nodes *)
-Definition att_alive (replica : N) (cur : list N) (a : attempt) : Prop :=
-  new_mark a -> replica / 2 < count_in cur (raft_nodes (a_before a)).
+(* a replica counts as reachable when its node is registered AND it answered the sync query *)
+Definition reach (env : answers) (cur : list N) (n : N) : bool := mem n cur && synced_of env n.
+Definition count_reach (env : answers) (cur l : list N) : N := len (filter (reach env cur) l).
+Definition att_alive (replica : N) (env : answers) (cur : list N) (a : attempt) : Prop :=
+  new_mark a -> replica / 2 < count_reach env cur (raft_nodes (a_before a)).
 (* ... or (balance / node decommission) only when every remaining replica answered ready/synced *)
 Definition att_mark_ready (env : answers) (a : attempt) : Prop :=
   new_mark a -> all_ready env (a_before a) = true.
@@ -597,6 +610,24 @@ Proof.
         -- apply IH in H; [|exact He]. destruct H as [H|[x [Hx H]]]; [left; exact H|right; exists x; split; [right; exact Hx|exact H]].
 Qed.
 
+Lemma mig_loop_synced : forall replica env cur now l alive ns chg a' ns' c',
+  mig_loop replica env cur now l alive ns chg = Some (a', ns', c') ->
+  forall x, In x l -> mem x cur = true -> synced_of env x = true.
+Proof.
+  intros replica env cur now l. induction l as [|rp l IH]; intros alive ns chg a' ns' c' H x Hx Hm; [destruct Hx|].
+  simpl in H. destruct (mem rp cur) eqn:Em.
+  - destruct (synced_of env rp) eqn:Es; [|discriminate].
+    destruct Hx as [<-|Hx]; [exact Es|eapply IH; eassumption].
+  - destruct Hx as [<-|Hx]; [congruence|].
+    destruct (ahas rp (removings ns)); [eapply IH; eassumption|].
+    destruct ((len (removings ns) =? 0) && (replica / 2 + 1 <? len (isr ns))); eapply IH; eassumption.
+Qed.
+Lemma filter_ext_in_len : forall A (f g : A -> bool) l, (forall x, In x l -> f x = g x) -> len (filter f l) = len (filter g l).
+Proof.
+  intros A f g l H. unfold len. f_equal. induction l as [|x l IH]; simpl; [reflexivity|].
+  rewrite (H x (or_introl eq_refl)). destruct (g x); simpl; rewrite IH; auto; intros y Hy; apply H; right; exact Hy.
+Qed.
+
 Lemma migrate_tail : forall replica (P : attempt -> Prop) r ns2 chg2,
   Inv replica (r_info r) -> wf ns2 -> trans (r_info r) ns2 ->
   (forall a, a_before a = r_info r -> a_value a = ns2 -> P a) ->
@@ -624,7 +655,7 @@ Proof. intros a H [x [H1 H2]]. rewrite H in H1. contradiction. Qed.
 
 Lemma handle_migrate_spec : forall replica env now r nepoch cur ep place,
   Inv replica (r_info r) ->
-  pspec replica (fun a => att_sync env a /\ att_alive replica cur a) r
+  pspec replica (fun a => att_sync env a /\ att_alive replica env cur a) r
         (handle_migrate replica env now r nepoch (r_info r) cur ep place).
 Proof.
   intros replica env now r nepoch cur ep place Hi. unfold handle_migrate.
@@ -672,7 +703,11 @@ Proof.
     apply migrate_tail; [exact Hi|apply wf_mark; assumption|apply trans_mark; left; exact Hx|].
     intros a Hb Hv. split.
     + intros Hm. exfalso. revert Hm. apply no_new_node_same. rewrite Hb, Hv. reflexivity.
-    + intros _. rewrite Hb. apply N.leb_gt in Eal. lia.
+    + intros _. rewrite Hb. apply N.leb_gt in Eal.
+      assert (Hcr : count_reach env cur (raft_nodes (r_info r)) = count_in cur (raft_nodes (r_info r))).
+      { unfold count_reach, count_in. apply filter_ext_in_len. intros y Hy. unfold reach.
+        destruct (mem y cur) eqn:Em; [|reflexivity]. rewrite (mig_loop_synced _ _ _ _ _ _ _ _ _ _ _ EL y Hy Em). reflexivity. }
+      rewrite Hcr. lia.
 Qed.
 
 (* ------------------------------------------------------------------------------------------ *)
@@ -721,8 +756,23 @@ Proof.
   lia.
 Qed.
 
+Lemma count_reach_mono_cur : forall env c1 c2 l, (forall x, In x c1 -> In x c2) -> count_reach env c1 l <= count_reach env c2 l.
+Proof.
+  intros env c1 c2 l H. unfold count_reach. apply filter_len_mono. intros x Hx. unfold reach in *.
+  apply andb_true_iff in Hx. destruct Hx as [Hm Hs]. apply mem_In in Hm. apply H in Hm. apply mem_In in Hm. rewrite Hm, Hs. reflexivity.
+Qed.
+Lemma filter_len_incl : forall (f : N -> bool) l1 l2, NoDup l1 -> (forall x, In x l1 -> In x l2) ->
+  len (filter f l1) <= len (filter f l2).
+Proof.
+  intros f l1 l2 Hn Hi. unfold len.
+  assert (H : (length (filter f l1) <= length (filter f l2))%nat).
+  { apply NoDup_incl_length; [apply NoDup_filter; exact Hn|].
+    intros x Hx. apply filter_In in Hx. apply filter_In. split; [apply Hi; tauto|tauto]. }
+  lia.
+Qed.
+
 Definition check_P (s : st) (a : attempt) : Prop :=
-  att_sync (s_ans s) a /\ att_alive (s_replica s) (s_nodes s) a.
+  att_sync (s_ans s) a /\ att_alive (s_replica s) (s_ans s) (s_nodes s) a.
 
 Definition res_spec (P : attempt -> Prop) (s : st) (res : st * bool * list attempt) : Prop :=
   let '(s', _, atts) := res in
@@ -735,13 +785,14 @@ Proof. intros. unfold check_finish, res_spec. simpl. split; [reflexivity|assumpt
 
 Lemma check_planned_spec : forall s full pa ac need r unst w ok ready atts,
   sspec (s_replica s) (check_P s) (s_reg s) r atts ->
-  ((s_replica s <? ac) && negb need = true ->
-   s_replica s / 2 < count_in (s_nodes s) (raft_nodes (r_info r))) ->
+  ((s_replica s <? ac) && negb need = true -> all_ready (s_ans s) (r_info r) = true ->
+   s_replica s / 2 < count_reach (s_ans s) (s_nodes s) (raft_nodes (r_info r))) ->
   res_spec (check_P s) s (check_planned s full pa ac need r (r_info r) unst w ok ready atts).
 Proof.
   intros s full pa ac need r unst w ok ready atts Hs Hal. unfold check_planned.
   destruct ((s_replica s <? ac) && negb need) eqn:Eg; [|apply check_finish_spec; exact Hs].
-  destruct ((len (s_rmnodes s) =? 0) && all_ready (s_ans s) (r_info r)); [|apply check_finish_spec; exact Hs].
+  destruct ((len (s_rmnodes s) =? 0) && all_ready (s_ans s) (r_info r)) eqn:Ecan; [|apply check_finish_spec; exact Hs].
+  apply andb_true_iff in Ecan. destruct Ecan as [_ Eready].
   destruct (decide_unwanted pa (r_info r)) as [[n|]|]; try (apply check_finish_spec; exact Hs).
   assert (Hi : Inv (s_replica s) (r_info r)) by (destruct Hs as [Hi _]; exact Hi).
   assert (Hr := remove_from_node_spec (s_replica s) (check_P s) (s_now s) r n Hi).
@@ -750,7 +801,7 @@ Proof.
   apply pspec_sspec with (c := c) (info' := i'). apply Hr.
   intros a Hb Hv. split.
   - intros Hm. exfalso. revert Hm. apply no_new_node_same. rewrite Hb, Hv. reflexivity.
-  - intros _. rewrite Hb. apply Hal. reflexivity.
+  - intros _. rewrite Hb. apply Hal; [reflexivity|exact Eready].
 Qed.
 
 Lemma shrinks_isr_nodes : forall b v, shrinks b v -> forall x, In x (isr b) -> In x (raft_nodes v).
@@ -763,7 +814,7 @@ Qed.
 Lemma remove_from_removings_nodes : forall replica env now r c r1 i1 w1,
   wf (r_info r) ->
   remove_from_removings replica env now r (r_info r) = (c, r1, i1, w1) ->
-  forall x, In x (isr (r_info r)) -> In x (raft_nodes (r_info r1)).
+  forall x, In x (isr (r_info r)) -> In x (isr (r_info r1)).
 Proof.
   intros replica env now r c r1 i1 w1 Hw H x Hx. unfold remove_from_removings in H.
   destruct (fold_left (finish_step env now) (removings (r_info r)) (r_info r, false)) as [ns changed] eqn:E.
@@ -773,13 +824,13 @@ Proof.
   { intros e He. apply (in_map fst) in He. exact He. }
   { apply shrinks_refl. }
   { exact Hw. }
-  assert (Hx0 : In x (raft_nodes (r_info r))) by (apply In_isr in Hx; tauto).
   destruct (changed && is_quorum replica ns).
   - destruct (reg_update r ns (epoch ns)) as [[r' o] a] eqn:Eu. apply reg_update_spec in Eu.
     destruct Eu as [_ [_ [[Ho [Hr _]]|[e [Ho [Hr _]]]]]]; subst o; inversion H; subst.
-    + rewrite Hr. exact Hx0.
-    + rewrite Hr. simpl. apply (shrinks_isr_nodes _ _ Hs). exact Hx.
-  - inversion H; subst. exact Hx0.
+    + rewrite Hr. exact Hx.
+    + rewrite Hr. rewrite isr_set_epoch. apply In_isr. split; [apply (shrinks_isr_nodes _ _ Hs); exact Hx|].
+      intros Hk. apply (sh_rmk _ _ Hs) in Hk. apply In_isr in Hx. tauto.
+  - inversion H; subst. exact Hx.
 Qed.
 
 Lemma shrink_check_P : forall s a, shrinks (a_before a) (a_value a) -> check_P s a.
@@ -808,23 +859,31 @@ Proof.
             then remove_from_removings (s_replica s) (s_ans s) (s_now s) (s_reg s) (r_info (s_reg s))
             else (CNone, s_reg s, r_info (s_reg s), [])).
   assert (HX : pspec (s_replica s) (check_P s) (s_reg s) X /\
-               (forall x, In x (isr (r_info (s_reg s))) -> In x (raft_nodes (r_info (snd (fst (fst X))))))).
+               (forall x, In x (isr (r_info (s_reg s))) -> In x (isr (r_info (snd (fst (fst X))))))).
   { unfold X. destruct (0 <? len (removings (r_info (s_reg s)))).
     - split.
       + apply remove_from_removings_spec; [exact Hi|]. intros a Hb Hs. apply shrink_check_P. rewrite Hb. exact Hs.
       + destruct (remove_from_removings (s_replica s) (s_ans s) (s_now s) (s_reg s) (r_info (s_reg s)))
           as [[[c r1] i1] w1] eqn:E. simpl.
         eapply remove_from_removings_nodes; [|exact E]. destruct Hi as [Hw _]. exact Hw.
-    - split; [apply pspec_noop; exact Hi|]. simpl. intros x Hx. apply In_isr in Hx. tauto. }
+    - split; [apply pspec_noop; exact Hi|]. simpl. intros x Hx. exact Hx. }
   clearbody X. destruct X as [[[c1 r1] info1] w1]. destruct HX as [HX Hnodes]. simpl in Hnodes.
   apply pspec_sspec in HX. destruct HX as [H1 Hinfo1]. subst info1.
   assert (Hi1 : Inv (s_replica s) (r_info r1)) by (destruct H1 as [H _]; exact H).
   (* the alive-count fact used by the planned removal *)
   assert (Hal : forall need, (s_replica s <? count_in (s_nodes s) (isr (r_info (s_reg s)))) && negb need = true ->
-                 s_replica s / 2 < count_in (s_nodes s) (raft_nodes (r_info r1))).
-  { intros need Hg. apply andb_true_iff in Hg. destruct Hg as [Hg _]. apply N.ltb_lt in Hg.
-    assert (Hc : count_in (s_nodes s) (isr (r_info (s_reg s))) <= count_in (s_nodes s) (raft_nodes (r_info r1))).
-    { apply count_in_incl; [|exact Hnodes]. unfold isr. apply NoDup_filter. destruct Hi as [Hw _]. apply (wf_nodes_nodup _ Hw). }
+                 all_ready (s_ans s) (r_info r1) = true ->
+                 s_replica s / 2 < count_reach (s_ans s) (s_nodes s) (raft_nodes (r_info r1))).
+  { intros need Hg Hready. apply andb_true_iff in Hg. destruct Hg as [Hg _]. apply N.ltb_lt in Hg.
+    (* every non-removing replica of the partition answered synced, so the registered ones among them are reachable *)
+    assert (Hc1 : count_in (s_nodes s) (isr (r_info (s_reg s))) = count_reach (s_ans s) (s_nodes s) (isr (r_info (s_reg s)))).
+    { unfold count_in, count_reach. apply filter_ext_in_len. intros y Hy. unfold reach.
+      rewrite (all_ready_synced _ _ y Hready (Hnodes y Hy)). rewrite andb_true_r. reflexivity. }
+    assert (Hc2 : count_reach (s_ans s) (s_nodes s) (isr (r_info (s_reg s))) <=
+                  count_reach (s_ans s) (s_nodes s) (raft_nodes (r_info r1))).
+    { unfold count_reach. apply filter_len_incl.
+      - unfold isr. apply NoDup_filter. destruct Hi as [Hw _]. apply (wf_nodes_nodup _ Hw).
+      - intros y Hy. apply Hnodes in Hy. apply In_isr in Hy. tauto. }
     assert (Hd : s_replica s / 2 <= s_replica s) by (apply N.div_le_upper_bound; lia). lia. }
   set (need := (len (isr (r_info (s_reg s))) <? s_replica s) ||
                negb (forallb (fun n : N => mem n (s_nodes s)) (isr (r_info (s_reg s))))) in *.
@@ -840,13 +899,13 @@ Proof.
         assert (H12 : sspec (s_replica s) (check_P s) (s_reg s) r2 (w1 ++ w2)).
         { eapply sspec_app; [exact H1|]. eapply sspec_weaken; [|exact H2].
           intros a [Ha Hb]. split; [exact Ha|]. intros Hm. apply Hb in Hm.
-          assert (Hc := count_in_mono_cur (avail_nodes s) (s_nodes s) (raft_nodes (a_before a)) (avail_sub s)). lia. }
+          assert (Hc := count_reach_mono_cur (s_ans s) (avail_nodes s) (s_nodes s) (raft_nodes (a_before a)) (avail_sub s)). lia. }
         destruct c; try (apply check_finish_spec; exact H12).
         apply check_planned_spec; [exact H12|]. rewrite Hneed. rewrite andb_false_r. discriminate.
       * apply check_planned_spec; [exact H1|]. apply Hal.
     + apply check_finish_spec. exact H1.
-  - destruct (all_ready (s_ans s) (r_info r1)).
-    + apply check_planned_spec; [exact H1|]. apply Hal.
+  - destruct (all_ready (s_ans s) (r_info r1)) eqn:Er1.
+    + apply check_planned_spec; [exact H1|]. intros Hg _. apply (Hal _ Hg). reflexivity.
     + apply check_finish_spec. exact H1.
 Qed.
 
@@ -1340,7 +1399,7 @@ Qed.
 (* the clause an attempt made by event e in state s satisfies, besides att_ok *)
 Definition step_P (s : st) (e : event) (a : attempt) : Prop :=
   match e with
-  | ECheck _ _ _ | EMigrate _ _ => att_sync (s_ans s) a /\ att_alive (s_replica s) (s_nodes s) a
+  | ECheck _ _ _ | EMigrate _ _ => att_sync (s_ans s) a /\ att_alive (s_replica s) (s_ans s) (s_nodes s) a
   | EBalance _ | EProcess _ => att_sync (s_ans s) a /\ att_mark_ready (s_ans s) a
   | _ => True
   end.
@@ -1373,7 +1432,7 @@ Proof.
                              (avail_nodes s) (s_nepoch s + delta) place) as [[[c r] i] w].
     apply pspec_sspec in H. destruct H as [H _]. simpl. split; [reflexivity|].
     eapply sspec_weaken; [|exact H]. intros a [Ha Hb]. split; [exact Ha|]. intros Hm. apply Hb in Hm.
-    assert (Hc := count_in_mono_cur (avail_nodes s) (s_nodes s) (raft_nodes (a_before a)) (avail_sub s)). lia.
+    assert (Hc := count_reach_mono_cur (s_ans s) (avail_nodes s) (s_nodes s) (raft_nodes (a_before a)) (avail_sub s)). lia.
   - (* EAdd *)
     assert (H := add_to_node_spec (s_replica s) (fun _ => True) (s_reg s) n Hi (fun _ _ _ _ _ => I)).
     destruct (add_to_node (s_reg s) (r_info (s_reg s)) n) as [[[c r] i] w].
@@ -1525,15 +1584,6 @@ Proof.
       * apply Hu in Hid. assert (Hm := tr_max _ _ Htr). lia.
 Qed.
 
-(* all_ready means: every current (non-removing) replica answered the member query with the full ready
-   set and answered "synced" *)
-Lemma all_ready_synced : forall env i n, all_ready env i = true -> In n (isr i) -> synced_of env n = true.
-Proof.
-  intros env i n H Hn. unfold all_ready in H. rewrite forallb_forall in H. specialize (H n Hn).
-  unfold node_full_ready in H. destruct (raft_nodes i); [discriminate|].
-  rewrite forallb_forall in H. specialize (H n Hn).
-  destruct (members_of env n); [|discriminate]. apply andb_true_iff in H. tauto.
-Qed.
 
 (* ------------------------------------------------------------------------------------------ *)
 (* namespace creation produces valid layouts (given that the placement proposes distinct nodes) *)
